@@ -287,6 +287,10 @@ func (s *OutlineServer) runConfig(config Config) (func() error, error) {
 
 	err := <-startErrCh
 	if err != nil {
+		// The config failed part-way: stop what it had already started, or its
+		// listeners stay bound (and keep serving its keys) forever.
+		stopCh <- struct{}{}
+		<-stopErrCh
 		return nil, err
 	}
 	return func() error {
